@@ -545,9 +545,7 @@ theorem s1_good : GoodAuthority envC s1 :=
     { scheme := "http".toStr, netloc := "user@example.com:8080".toStr, path := "/p".toStr, query := [], fragment := [] }
     { user := some "user".toStr, password := none, host := some "example.com".toStr, port := some 8080 }
     rfl rfl
-    ⟨C09_good_user _ _ (by
-        intro s hs; injection hs with hs; subst hs
-        exact ⟨by decide, 117, by decide, by decide⟩),
+    ⟨(by intro s hs; cases hs; decide),
      C09_good_host_regname _ _ (by decide) (by decide) (by decide) (by decide) (by decide)⟩
 
 def k1 : GoodKey envC := ⟨s1, s1_good⟩
@@ -558,9 +556,7 @@ def k2 : GoodKey envC := ⟨"HTTP://user@EXAMPLE.com:8080/p".toStr,
     { scheme := "http".toStr, netloc := "user@EXAMPLE.com:8080".toStr, path := "/p".toStr, query := [], fragment := [] }
     { user := some "user".toStr, password := none, host := some "EXAMPLE.com".toStr, port := some 8080 }
     rfl rfl
-    ⟨C09_good_user _ _ (by
-        intro s hs; injection hs with hs; subst hs
-        exact ⟨by decide, 117, by decide, by decide⟩),
+    ⟨(by intro s hs; cases hs; decide),
      C09_good_host_regname _ _ (by decide) (by decide) (by decide) (by decide) (by decide)⟩⟩
 
 /-- the parts of `URL("http://user@example.com:8080/p")` -/
